@@ -10,6 +10,7 @@ CONSTANTS
   Permissive = FALSE
   Bug = {}
   GenMode = "resume"
+  FollowCmds = {"R", "W", "A", "I"}
   MaxChanges = 1
 INVARIANT EmitTrace
 CHECK_DEADLOCK FALSE
